@@ -1,6 +1,7 @@
 #![allow(dead_code, unused_imports)]
 mod mon;
 mod pipe;
+mod pool;
 mod props;
 mod run;
 mod store;
@@ -109,7 +110,7 @@ fn cmd_check(args: &[String]) {
     let seed: u64 = arg_val(args, "--seed").and_then(|s| s.parse().ok()).unwrap_or(1);
     let threads: usize = arg_val(args, "--threads").and_then(|s| s.parse().ok()).unwrap_or(16);
     let out = arg_val(args, "--out").unwrap_or_else(|| "/dev/stdout".to_string());
-    let ctx = run::Ctx { prop: prop.clone(), tier, seed, threads, replay: None, progress: arg_val(args, "--progress") };
+    let ctx = run::Ctx { prop: prop.clone(), tier, seed, threads, only_case: None, progress: arg_val(args, "--progress") };
     let t0 = std::time::Instant::now();
     match props::dispatch(&ctx) {
         None => {
@@ -129,12 +130,28 @@ fn cmd_replay(args: &[String]) {
     let text = std::fs::read_to_string(&path).expect("read replay file");
     let j = util::Json::parse(&text).expect("parse replay file");
     let prop = j.get("property").and_then(|x| x.as_str()).unwrap_or("").to_string();
-    let payload = j.get("payload").cloned().unwrap_or(util::Json::Null);
-    match props::replay(&prop, &payload) {
-        Some(s) => print!("{}", s),
+    let seed = j.get("seed").and_then(|x| x.as_i64()).unwrap_or(1) as u64;
+    let case = j.get("case").and_then(|x| x.as_i64()).unwrap_or(0) as u64;
+    let tier = if j.get("tier").and_then(|x| x.as_str()) == Some("thorough") { run::Tier::Thorough } else { run::Tier::Quick };
+    let ctx = run::Ctx { prop: prop.clone(), tier, seed, threads: 1, only_case: Some(case), progress: None };
+    println!("replaying {} case {} (seed {}, tier {:?}); recorded signature: {}", prop, case, seed, tier, j.get("signature").and_then(|x| x.as_str()).unwrap_or("?"));
+    match props::dispatch(&ctx) {
         None => {
-            eprintln!("no replay for {}", prop);
+            eprintln!("no check for property {}", prop);
             std::process::exit(2);
+        }
+        Some((acc, _, _)) => {
+            for v in acc.violations.values() {
+                println!("VIOLATED {}\n    {}\n    payload: {}", v.sig, v.desc, v.payload.to_string());
+            }
+            for m in &acc.inconclusive {
+                println!("INCONCLUSIVE {}", m);
+            }
+            if acc.violations.is_empty() {
+                println!("held on this case ({} executions)", acc.evals);
+            } else {
+                std::process::exit(1);
+            }
         }
     }
 }
